@@ -169,7 +169,15 @@ class _Scripted(_Recording):
             act = []
         for spec in act:
             kind = spec[0]
-            if kind in ("L", "A", "M", "OC"):
+            if kind in ("P", "E"):
+                # price relative to the current market price ("P") or to the time-0 price ("E": exactly a band edge)
+                m = self._market(markets, spec[1])
+                ref = m.get_market_price() if kind == "P" else m.get_market_price(0)
+                o = Order(agent_id=self.agent_id, market_id=m.market_id, is_buy=spec[2], kind=LIMIT_ORDER, volume=spec[4],
+                          price=max(m.tick_size, ref * (1 + spec[3])), ttl=spec[5])
+                out.append(o)
+                self.mine.append(o)
+            elif kind in ("L", "A", "M", "OC"):
                 m = self._market(markets, spec[1])
                 is_buy = spec[2]
                 if kind == "L" or kind == "OC":
